@@ -45,6 +45,8 @@ def configs(tier):
     # interactions between two perturbations (each judged against the corpus it was given)
     out.append(dict(key="shift+false_neg,fixed-ref=0,annotators=1", flags=["shift", "false_neg"], ref=("fixed", 0), anns=1, budget=20, cost=3000, split=24))
     out.append(dict(key="false_pos+false_neg,symbolic-ref,annotators=1", flags=["false_pos", "false_neg"], ref=("sym", 2), anns=1, budget=20, cost=2000, split=24))
+    # a perturbation that changes the number of units, then the split (whose announced number of splits comes from the REFERENCE)
+    out.append(dict(key="false_neg+split,symbolic-ref,annotators=1", flags=["false_neg", "split"], ref=("sym", 2), anns=1, budget=20, cost=3000, split=24))
     out.append(dict(key="include_ref,symbolic-ref,annotators=2", flags=[], ref=("sym", 2), anns=2, include_ref=True, cost=20))
     out.append(dict(key="named-annotators,symbolic-ref", flags=[], ref=("sym", 2), anns=["zoe", "abe"], cost=20))
     out.append(dict(key="all-flags,magnitude=0,symbolic-ref", flags=list(FLAGS), ref=("sym", 2), anns=2, m0=True, include_ref=True, budget=60, cost=100))
